@@ -569,6 +569,42 @@ pub fn recipes() -> Vec<Recipe> {
             },
         ))
     });
+    // a parameter the operation needs is simply not set: whatever the builder does about it
+    // (refuse, or fall back to a default), what reaches the wire has to be permitted. Only the
+    // forward direction is judged for these ("omitted:" recipes).
+    push("omitted: edit-config without target".into(), vec![Feature::Op("edit-config")], vec![], false, Params::default(), |s, _| {
+        unit(s.exchange::<EditConfig<Opaque>, _, _>(|b| b.config(Opaque::from("<top/>")).finish(), ok))
+    });
+    push("omitted: edit-config without source".into(), vec![Feature::Op("edit-config")], vec![], false, Params::default(), |s, _| {
+        unit(s.exchange::<EditConfig<Opaque>, _, _>(|b| b.target(Datastore::Candidate)?.finish(), ok))
+    });
+    push("omitted: edit-config without anything".into(), vec![Feature::Op("edit-config")], vec![], false, Params::default(), |s, _| {
+        unit(s.exchange::<EditConfig<Opaque>, _, _>(|b| b.finish(), ok))
+    });
+    push("omitted: copy-config without target".into(), vec![Feature::Op("copy-config")], vec![], false, Params::default(), |s, _| {
+        unit(s.exchange::<CopyConfig, _, _>(|b| b.source(Datastore::Running)?.finish(), ok))
+    });
+    push("omitted: copy-config without source".into(), vec![Feature::Op("copy-config")], vec![], false, Params::default(), |s, _| {
+        unit(s.exchange::<CopyConfig, _, _>(|b| b.target(Datastore::Candidate)?.finish(), ok))
+    });
+    push("omitted: copy-config without anything".into(), vec![Feature::Op("copy-config")], vec![], false, Params::default(), |s, _| {
+        unit(s.exchange::<CopyConfig, _, _>(|b| b.finish(), ok))
+    });
+    push("omitted: delete-config without target".into(), vec![Feature::Op("delete-config")], vec![], false, Params::default(), |s, _| {
+        unit(s.exchange::<DeleteConfig, _, _>(|b| b.finish(), ok))
+    });
+    push("omitted: get-config without source".into(), vec![Feature::Op("get-config")], vec![], false, Params::default(), |s, _| {
+        unit(s.exchange::<GetConfig<Opaque>, _, _>(|b| b.finish(), data))
+    });
+    push("omitted: lock without target".into(), vec![Feature::Op("lock")], vec![], false, Params::default(), |s, _| {
+        unit(s.exchange::<Lock, _, _>(|b| b.finish(), ok))
+    });
+    push("omitted: unlock without target".into(), vec![Feature::Op("unlock")], vec![], false, Params::default(), |s, _| {
+        unit(s.exchange::<Unlock, _, _>(|b| b.finish(), ok))
+    });
+    push("omitted: validate without source".into(), vec![Feature::Op("validate")], vec![], false, Params::default(), |s, _| {
+        unit(s.exchange::<Validate, _, _>(|b| b.finish(), ok))
+    });
     v
 }
 
@@ -750,6 +786,9 @@ pub fn run(cfg: &Cfg) -> i32 {
                         }
                         Err(e) => rep.violation("request-not-well-formed", &format!("{e:?}"), wit(json!({"request": clip_bytes(&request, 600)}))),
                     }
+                    if rc.name.starts_with("omitted:") {
+                        rep.count("omitted_parameter_requests_sent_with_a_default");
+                    }
                     if rc.invalid {
                         rep.violation(
                             &format!("invalid-combination-sent:{}", rc.name.split(' ').next().unwrap_or("")),
@@ -766,7 +805,9 @@ pub fn run(cfg: &Cfg) -> i32 {
                     if sent {
                         rep.violation("error-but-sent", &format!("rpc() failed ({err}) but bytes reached the wire"), wit(json!({})));
                     }
-                    if expect_ok {
+                    if rc.name.starts_with("omitted:") {
+                        rep.count("omitted_parameter_requests_refused_locally");
+                    } else if expect_ok {
                         if dc_blocked {
                             dont_care += 1;
                         } else {
